@@ -60,6 +60,10 @@ def sim_read(fmt, node, v4=True, gf_split=False, is_root=True, sep="-"):
         label, gf = split_gf(new[key], sep)
         new[key] = label
         new["e"] = gf
+    if is_root and fmt == "tigerxml" and not M.is_tok(node) and new["l"] != "VROOT":
+        # documented: the TIGER-XML reader puts a (unary) VROOT above a graph whose root is not VROOT
+        new["e"] = "--"
+        new = {"l": "VROOT", "e": "--", "m": "--", "c": [new]}
     return new
 
 
@@ -126,6 +130,25 @@ def comparable(fmt, node, v4=False):
 
 # ----------------------------------------------------------------------------------------------- file handling
 
+def source_models(case):
+    """file-level models of the source corpus (root label variety; TIGER-XML optionally without the VROOT nonterminal)"""
+    out = []
+    novroot = tiger_novroot(case)
+    for tree in case["trees"]:
+        root = M.copy(tree["root"])
+        if case["src"] != "export":
+            root["l"] = case.get("root_label", "VROOT")
+        if novroot:
+            root = root["c"][0]
+            root["e"] = "--"
+        out.append({"sid": tree["sid"], "root": root})
+    return out
+
+
+def tiger_novroot(case):
+    return case["src"] == "tigerxml" and case.get("novroot") and all(len(t["root"]["c"]) == 1 and not M.is_tok(t["root"]["c"][0]) for t in case["trees"])
+
+
 def write_source(path, fmt, trees, enc, v4, gz):
     if fmt == "export":
         text = CT.encode_export(trees, v4=v4)
@@ -134,10 +157,15 @@ def write_source(path, fmt, trees, enc, v4, gz):
     elif fmt == "discobrackets":
         text = CT.encode_discobrackets(trees)
     else:
-        text = CT.encode_tigerxml(trees, encoding={"utf-8": "utf-8", "latin-1": "iso-8859-1", "utf-16": "utf-16"}[enc])
+        text = encode_tiger_plain(trees, {"utf-8": "utf-8", "latin-1": "iso-8859-1", "utf-16": "utf-16"}[enc])
     data = text.encode(PY_ENC[enc])
     with (gzip.open(path, "wb") if gz else open(path, "wb")) as stream:
         stream.write(data)
+
+
+def encode_tiger_plain(trees, encoding):
+    """like CT.encode_tigerxml, but the model's root is the graph root whatever its label"""
+    return CT.encode_tigerxml(trees, encoding=encoding)
 
 
 def decode_dest(prefix, fmt, path, enc, v4):
@@ -191,7 +219,9 @@ def convert(prefix, src, dest, sfmt, dfmt, senc, denc, sopts, dopts, sub):
 def check(case):
     sfmt, dfmt = case["src"], case["dest"]
     senc, denc = case["src_enc"], case["dest_enc"]
-    trees = case["trees"]
+    trees = source_models(case)
+    first_id = case.get("firstid")
+    src_opts = ["quiet"] + (["brackets_firstid:%d" % first_id] if (first_id is not None and sfmt in ("brackets", "discobrackets")) else [])
     v4 = case.get("v4", False)
     sub = case.get("sub", False)
     dopts = list(case.get("dest_opts", []))
@@ -206,12 +236,12 @@ def check(case):
             src = os.path.join(srcdir, name)
             write_source(src, sfmt, trees, senc, v4, case.get("gz"))
             dest = src + ".dest"
-            convert(prefix, srcdir, os.path.join(tmpdir, "unused"), sfmt, dfmt, senc, denc, ["quiet"], dopts, sub)
+            convert(prefix, srcdir, os.path.join(tmpdir, "unused"), sfmt, dfmt, senc, denc, src_opts, dopts, sub)
         else:
             src = os.path.join(tmpdir, name)
             write_source(src, sfmt, trees, senc, v4, case.get("gz"))
             dest = os.path.join(tmpdir, "dest." + dfmt)
-            convert(prefix, src, dest, sfmt, dfmt, senc, denc, ["quiet"], dopts, sub)
+            convert(prefix, src, dest, sfmt, dfmt, senc, denc, src_opts, dopts, sub)
         dopt_set = set(dopts)
         out_v4 = "export_four" in dopt_set
         memory = [sim_read(sfmt, t["root"], v4=v4) for t in trees]
@@ -221,7 +251,7 @@ def check(case):
             raise violation(prefix + "/number-of-sentences", "%d sentences in the destination, %d in the source" % (len(decoded), len(trees)))
         for i, ((sid, got), exp, tree) in enumerate(zip(decoded, expected, trees)):
             if dfmt in ("export", "tigerxml"):
-                want_sid = tree["sid"] if sfmt in ("export", "tigerxml") else i + 1
+                want_sid = tree["sid"] if sfmt in ("export", "tigerxml") else i + (1 if "brackets_firstid:%s" % first_id not in src_opts else first_id)
                 if sid != want_sid:
                     raise violation(prefix + "/sentence-id", "sentence %d written with id %r, expected %r" % (i + 1, sid, want_sid))
             if comparable(dfmt, got, out_v4) != comparable(dfmt, exp, out_v4):
@@ -278,6 +308,8 @@ def check(case):
                 bopts.append("export_four")
             if sfmt == "brackets" and any(M.tree_gapdeg(t["root"]) > 0 for t in trees):
                 return True
+            if sfmt in ("brackets", "discobrackets") and dfmt == "export":
+                pass
             convert(bprefix, dest, back, dfmt, sfmt, denc, senc, ["quiet"] + sback, bopts, sub)
             mem2 = [sim_read(dfmt, e, v4=out_v4, gf_split="gf" in dopt_set, sep=sep_of(dopt_set)) for e in expected]
             for m2 in mem2:
@@ -352,13 +384,21 @@ def conv_case(draw, max_tokens, max_sents, sub_fraction):
         dopts.append("brackets_emptyroot")
     return {"src": sfmt, "dest": dfmt, "src_enc": senc, "dest_enc": denc, "trees": trees, "v4": draw(st.booleans()),
             "gz": sfmt != "tigerxml" and draw(st.integers(0, 4)) == 0, "dirmode": draw(st.integers(0, 5)) == 0, "dest_opts": dopts,
-            "sub": draw(st.floats(0, 1)) < sub_fraction, "back": True, "third": draw(st.sampled_from([None, None] + DEST))}
+            "sub": draw(st.floats(0, 1)) < sub_fraction, "back": True, "third": draw(st.sampled_from([None, None] + DEST)),
+            "root_label": draw(st.sampled_from(["VROOT", "VROOT", "TOP", "S"])), "novroot": draw(st.integers(0, 2)) == 0,
+            "firstid": draw(st.sampled_from([None, None, 0, 0, 7, 1000]))}
 
 
 def classes_of(case):
     out = ["pair=%s>%s" % (case["src"], case["dest"]), "src-enc=" + case["src_enc"], "dest-enc=" + case["dest_enc"]]
     if case.get("third") and case["dest"] != "terminals":
         out.append("chain=%s>%s>%s" % (case["src"], case["dest"], case["third"]))
+    if case.get("root_label", "VROOT") != "VROOT" and case["src"] != "export":
+        out.append("root-label-not-VROOT")
+    if tiger_novroot(case):
+        out.append("tigerxml-source-without-VROOT")
+    if case.get("firstid") is not None and case["src"] in ("brackets", "discobrackets"):
+        out.append("brackets_firstid=%d" % case["firstid"])
     for flag in ("gz", "dirmode", "sub"):
         if case.get(flag):
             out.append(flag)
